@@ -138,6 +138,7 @@ type World struct {
 	constCache map[*ssa.Const]Value
 	initDone   map[*ssa.Package]bool
 	inInit     bool
+	ufMemo     map[uint32][2]bool
 	findObl    map[string][]string // finding id -> obligation patterns it may explain
 	forced     []ndValue // model replay: nondeterministic values fixed to a vector
 	forcedPos  int
